@@ -1,10 +1,12 @@
 package regprocessor
 
-// C12 — usage sub-check: with subnet overrides enforced for 100 % of the registrations and k weighted
-// override subnets per transport (every non-zero weight >= 10 % of the total), N = 400 requests per
-// transport must use every one of them at least once. On a correct weighted choice the probability
-// that a given subnet with share >= 10 % is missed is <= 0.9^400 < 5e-19; with <= 8 such subnets per
-// case the false-alarm probability per case is < 4e-18.
+// C12 — usage sub-check: subnet overrides enforced, the override percentage drawn per transport from
+// 5..100 (mostly below 100), 1-5 weighted override subnets per transport (weights 1-3) plus optional
+// zero-weight and foreign-transport entries in any order. Per transport N = ceil(26 / (p*s)) requests
+// are sent (p = percentage/100, s = smallest non-zero weight share; see C12UsageN): every subnet with
+// a non-zero weight must be chosen at least once and a zero-weight subnet never. On a correct
+// weighted choice a given weighted subnet is missed with probability <= exp(-26) < 5.2e-12; with at
+// most 10 weighted subnets per case the false-alarm probability per case is < 5.2e-11.
 
 import (
 	"testing"
@@ -19,9 +21,10 @@ func c12UsageCheck(t vh.Fataler, rec *vh.Rec, e *C12Env, u C12UsageCase) {
 }
 
 func TestVerif_C12_usage(t *testing.T) {
-	rec := vh.NewRec("C12", "usage", "rapid-generated registrar configurations (1-4 weighted override subnets per transport, weights 1-3, optional zero-weight and foreign-transport entries, any order, 100 % override, no exclusion hit) x 400 derived requests per transport through RegisterBidirectional; every subnet with a non-zero weight must be chosen at least once; non-trivial = some transport has >= 2 weighted subnets; distinct by configuration")
+	rec := vh.NewRec("C12", "usage", "rapid-generated registrar configurations (override percentage per transport drawn from 5..100, mostly below 100; 1-5 weighted override subnets per transport, weights 1-3, optional zero-weight and foreign-transport entries, any order, no exclusion hit) x N = ceil(26/(p*s)) derived requests per transport (p = percentage/100, s = smallest non-zero weight share) through RegisterBidirectional; every subnet with a non-zero weight must be chosen at least once (P[false alarm] < 5.2e-11 per case) and a zero-weight subnet never; non-trivial = some transport has >= 2 weighted subnets; distinct by configuration")
 	defer rec.Flush()
-	rec.Require("several-weighted-subnets", "zero-weight-before-all-weighted", "zero-weight-before-a-weighted", "zero-weight-last")
+	rec.Require("several-weighted-subnets", "zero-weight-before-all-weighted", "zero-weight-before-a-weighted", "zero-weight-last",
+		"percentage-below-100-with-several-weighted-subnets")
 	e := C12NewEnv(t)
 	if p := vh.ReplayFile(); p != "" {
 		var u C12UsageCase
